@@ -1,4 +1,7 @@
 import GridVerif.Props.C07
+import GridVerif.Props.C07.Interp
+import GridVerif.Props.C07.DefaultRgrid
+import GridVerif.Props.C07.Defaults
 
 #print axioms GridVerif.C07.molgrid_shape
 #print axioms GridVerif.C07.molgrid_slices
@@ -32,3 +35,17 @@ import GridVerif.Props.C07
 #print axioms GridVerif.C07.gen_init_overwrites_zeros
 #print axioms GridVerif.C07.gen_getAtomicGrid_eq_model
 #print axioms GridVerif.C07.gen_getItem_eq_model
+#print axioms GridVerif.C07.gen_interpolate_low_eq_model
+#print axioms GridVerif.C07.interpolate_low_defaults
+#print axioms GridVerif.C07.gen_interpolate_eq_model
+#print axioms GridVerif.C07.interpolate_needs_store
+#print axioms GridVerif.C07.interpolate_sum_over_atoms
+#print axioms GridVerif.C07.sumInterp_same_shape
+#print axioms GridVerif.C07.defaultRgridParams_npt
+#print axioms GridVerif.C07.gen_defaultRgrid_eq_model
+#print axioms GridVerif.C07.defaultRgrid_rows_ok
+#print axioms GridVerif.C07.defaultRgrid_clause
+#print axioms GridVerif.C07.generate_default_rgrid_spec
+#print axioms GridVerif.C07.signature_defaults_pinned
+#print axioms GridVerif.C07.fromPruned_default_sectors
+#print axioms GridVerif.C07.save_site_pinned
